@@ -112,6 +112,13 @@ func (sandbox *SSHSandbox) initSequence(envs commservices.Environments) (reader 
 		initCode = "\nset -e\nset +x\n"
 		eofTag   = "EOF" + varutil.RandString(10, varutil.UpperAlphaBytes)
 	)
+	if all := envs.All(); len(all) != 0 {
+		values := make([]string, 0, len(all))
+		for _, value := range all {
+			values = append(values, value)
+		}
+		eofTag = varutil.HeredocTag(values...)
+	}
 	for key, value := range envs.All() {
 		initCode += key + "=$(cat <<'" + eofTag + "'\n" + value + "\n" + eofTag + "\n)\n"
 		initCode += "export " + key + "\n"
